@@ -485,7 +485,55 @@ func receiverMutated(pi *pkgInfo, fd *ast.FuncDecl, t *T) bool {
 	return found
 }
 
+// uniquify renames the local variables of fd (in place) so that distinct objects have distinct
+// names: Go shadowing (`min := min.Array()[axis]`) then needs no special treatment downstream.
+func uniquify(pi *pkgInfo, fd *ast.FuncDecl) {
+	taken := map[string]types.Object{}
+	rename := map[types.Object]string{}
+	var order []*ast.Ident
+	ast.Inspect(fd, func(n ast.Node) bool {
+		if id, ok := n.(*ast.Ident); ok {
+			order = append(order, id)
+		}
+		return true
+	})
+	for _, id := range order {
+		obj := pi.info.Defs[id]
+		v, ok := obj.(*types.Var)
+		if !ok || v.IsField() || id.Name == "_" {
+			continue
+		}
+		if _, done := rename[obj]; done {
+			continue
+		}
+		name := id.Name
+		if prev, clash := taken[name]; clash && prev != obj {
+			for i := 1; ; i++ {
+				cand := fmt.Sprintf("%s_%d", id.Name, i)
+				if _, c := taken[cand]; !c {
+					name = cand
+					break
+				}
+			}
+		}
+		taken[name] = obj
+		rename[obj] = name
+	}
+	for _, id := range order {
+		if obj := pi.info.Defs[id]; obj != nil {
+			if nn, ok := rename[obj]; ok {
+				id.Name = nn
+			}
+		} else if obj := pi.info.Uses[id]; obj != nil {
+			if nn, ok := rename[obj]; ok {
+				id.Name = nn
+			}
+		}
+	}
+}
+
 func (t *T) function(pi *pkgInfo, fd *ast.FuncDecl, fn string) (string, error) {
+	uniquify(pi, fd)
 	obj, _ := pi.info.Defs[fd.Name].(*types.Func)
 	if obj == nil {
 		return "", fmt.Errorf("no type information")
@@ -539,6 +587,9 @@ func (t *T) function(pi *pkgInfo, fd *ast.FuncDecl, fn string) (string, error) {
 			// pointer parameters are read-only in the subset; writes through them are rejected in assign()
 		}
 		nm := p.Name()
+		if astNames := paramNames(fd); i < len(astNames) && astNames[i] != "" {
+			nm = astNames[i]
+		}
 		if nm == "" || nm == "_" {
 			nm = fmt.Sprintf("_p%d", i)
 		}
@@ -590,6 +641,19 @@ func (t *T) function(pi *pkgInfo, fd *ast.FuncDecl, fn string) (string, error) {
 	rel, _ := filepath.Rel(t.repo, pos.Filename)
 	doc := fmt.Sprintf("/-- `%s` (%s) -/\n", fn, rel)
 	return fmt.Sprintf("%sdef %s %s : %s :=\n%s%s\n", doc, leanName, strings.Join(params, " "), resT, pre, indent(body, "  ")), nil
+}
+
+func paramNames(fd *ast.FuncDecl) []string {
+	var out []string
+	for _, f := range fd.Type.Params.List {
+		if len(f.Names) == 0 {
+			out = append(out, "")
+		}
+		for _, n := range f.Names {
+			out = append(out, n.Name)
+		}
+	}
+	return out
 }
 
 func indent(s, pre string) string {
@@ -1696,6 +1760,43 @@ func (fx *fnCtx) structEq(ty types.Type, a, b string) (string, error) {
 
 func (fx *fnCtx) composite(x *ast.CompositeLit) (string, error) {
 	tv := fx.pi.info.Types[x]
+	if arr, isArr := types.Unalias(tv.Type).(*types.Array); isArr {
+		lt, err := fx.t.leanType(arr)
+		if err != nil {
+			return "", err
+		}
+		vals := map[int64]string{}
+		next := int64(0)
+		for _, el := range x.Elts {
+			val := el
+			if kv, ok := el.(*ast.KeyValueExpr); ok {
+				i, ok := fx.constInt(kv.Key)
+				if !ok {
+					return "", fmt.Errorf("non-constant array literal key")
+				}
+				next = i
+				val = kv.Value
+			}
+			v, err := fx.exprAs(val, arr.Elem())
+			if err != nil {
+				return "", err
+			}
+			vals[next] = v
+			next++
+		}
+		var parts []string
+		for i := int64(0); i < arr.Len(); i++ {
+			v, ok := vals[i]
+			if !ok {
+				v, err = fx.t.zeroValue(arr.Elem())
+				if err != nil {
+					return "", err
+				}
+			}
+			parts = append(parts, fmt.Sprintf("e%d := %s", i, v))
+		}
+		return "({ " + strings.Join(parts, ", ") + " } : " + lt + ")", nil
+	}
 	named, ok := types.Unalias(tv.Type).(*types.Named)
 	if !ok {
 		return "", fmt.Errorf("composite literal of %s is outside the subset", tv.Type)
